@@ -65,11 +65,17 @@ def resolve_product(repo, fname: str, bindings: Optional[Dict[str, ast.AST]] = N
             env[p] = d
     env.update(bindings or {})
     defs = single_assignments(fn)
+    for st in fn.body:
+        if isinstance(st, ast.FunctionDef):
+            inner = [b for b in st.body if not (isinstance(b, ast.Expr) and isinstance(b.value, ast.Constant))]
+            if len(inner) == 1 and isinstance(inner[0], ast.Return) and inner[0].value is not None and not st.decorator_list:
+                defs.setdefault(st.name, ast.Lambda(args=st.args, body=inner[0].value))
     for k, v in defs.items():
         if k not in env:
             env[k] = v
     rets = [n for n in walk_shallow(fn) if isinstance(n, ast.Return)]
-    body = [s for s in fn.body if not (isinstance(s, ast.Expr) and isinstance(s.value, ast.Constant))]
+    body = [s for s in fn.body if not (isinstance(s, ast.Expr) and isinstance(s.value, ast.Constant))
+            and not isinstance(s, ast.FunctionDef)]
     if len(rets) != 1 or not isinstance(rets[0].value, ast.Call) or any(
             isinstance(s, (ast.If, ast.For, ast.While, ast.Try, ast.With)) for s in body):
         raise Unknown(f"codegen.{fname}", "not a straight-line wrapper ending in one call", fn)
